@@ -334,6 +334,8 @@ FUNCTIONS['VLOOKUP'] = wrap_ufunc(
 
 
 def xtranspose(array):
+    if not isinstance(array, np.ndarray):  # A scalar keeps its own type.
+        array = np.array([[array]], dtype=object)
     return np.transpose(array).view(Array)
 
 
